@@ -12,6 +12,7 @@ import (
 	"path/filepath"
 	"strings"
 	"sync"
+	"sync/atomic"
 	"syscall"
 	"time"
 
@@ -37,10 +38,15 @@ type dir struct {
 	stop  chan struct{}
 }
 
+// errRepoInUse is returned when the cache wants to release a repo that requests are still using.
+var errRepoInUse = errors.New("repo is in use")
+
 type dirRepo struct {
 	mu        sync.Mutex
 	wg        sync.WaitGroup
 	wgBlock   chan struct{}
+	inUse     atomic.Int32 // requests that hold the repo, counted next to wg
+	released  bool         // the repo was dropped from the cache, set and read with the wgBlock token held
 	timeCheck time.Time
 	timeIndex time.Time // mod time of the index.json that is loaded
 	timeMod   time.Time // last change to the repo, the GC skips repos without a recent change
@@ -78,13 +84,24 @@ func NewDir(conf config.Config, opts ...Opts) Store {
 			if !dr.uploads.IsEmpty() {
 				return fmt.Errorf("uploads in progress")
 			}
-			// warning, this will block, ensure repos are always held open for a minimal time (this mostly affects the design of tests)
+			// a repo is only released when nothing uses it: requests are not waited for with the cache locked,
+			// and a repo dropped while a request holds it would be opened a second time next to the one in use
+			select {
+			case <-dr.wgBlock:
+			default:
+				return errRepoInUse
+			}
+			defer func() { dr.wgBlock <- struct{}{} }()
+			if dr.inUse.Load() > 0 {
+				return errRepoInUse
+			}
 			// a negative frequency disables the GC, also when a repo is released
 			if !*dr.conf.Storage.ReadOnly && dr.conf.Storage.GC.Frequency >= 0 {
-				if err := dr.gc(); err != nil {
+				if err := dr.gcHeld(); err != nil {
 					return err
 				}
 			}
+			dr.released = true
 			return nil
 		},
 	}
@@ -129,7 +146,13 @@ func (d *dir) RepoGet(ctx context.Context, repoStr string) (Repo, error) {
 		// wgBlock prevents adding to the WG while a wg.Wait is running, GC blocks new requests
 		select {
 		case <-dr.wgBlock:
+			if dr.released {
+				// dropped from the cache while this request waited for the token, look it up again
+				dr.wgBlock <- struct{}{}
+				return d.RepoGet(ctx, repoStr)
+			}
 			dr.wg.Add(1)
+			dr.inUse.Add(1)
 			dr.wgBlock <- struct{}{}
 			return dr, nil
 		case <-ctx.Done():
@@ -179,6 +202,7 @@ func (d *dir) RepoGet(ctx context.Context, repoStr string) (Repo, error) {
 		}
 	}
 	dr.wg.Add(1)
+	dr.inUse.Add(1)
 	// the repo is only added to the cache once it is initialized and held by this request, background jobs find it there
 	d.repos.Set(repoStr, &dr)
 	return &dr, nil
@@ -199,18 +223,23 @@ func (d *dir) Close() error {
 			errs = append(errs, err)
 			continue
 		}
-		// hold the token while waiting, a GC or a new request must not use the wait group at the same time
-		<-repo.wgBlock
-		repo.wg.Wait()
-		repo.wgBlock <- struct{}{}
-		if !*d.conf.Storage.ReadOnly {
-			err = repo.uploads.DeleteAll()
-			if err != nil {
-				errs = append(errs, err)
-				continue
+		for {
+			// hold the token while waiting, a GC or a new request must not use the wait group at the same time
+			<-repo.wgBlock
+			repo.wg.Wait()
+			repo.wgBlock <- struct{}{}
+			if !*d.conf.Storage.ReadOnly {
+				err = repo.uploads.DeleteAll()
+				if err != nil {
+					break
+				}
+			}
+			err = d.repos.Delete(r)
+			// a request that was already waiting for the token may have taken the repo meanwhile, it is waited for as well
+			if err == nil || !errors.Is(err, errRepoInUse) {
+				break
 			}
 		}
-		err = d.repos.Delete(r)
 		if err != nil {
 			errs = append(errs, err)
 		}
@@ -543,6 +572,7 @@ func (dr *dirRepo) BlobSession(sessionID string) (BlobCreator, error) {
 // Done indicates the routine using this repo is finished.
 // This must be called exactly once for every instance of [Store.RepoGet].
 func (dr *dirRepo) Done() {
+	dr.inUse.Add(-1)
 	dr.wg.Done()
 }
 
@@ -710,7 +740,16 @@ func (dr *dirRepo) indexSave(locked bool) error {
 func (dr *dirRepo) gc() error {
 	<-dr.wgBlock
 	defer func() { dr.wgBlock <- struct{}{} }()
+	if dr.released {
+		// dropped from the cache (and collected at that moment), the next request opens the repo again
+		return nil
+	}
 	dr.wg.Wait()
+	return dr.gcHeld()
+}
+
+// gcHeld runs the GC, the caller holds the wgBlock token and no request holds the repo.
+func (dr *dirRepo) gcHeld() error {
 	dr.mu.Lock()
 	defer dr.mu.Unlock()
 	dr.log.Debug("starting GC", "repo", dr.name)
